@@ -270,8 +270,8 @@ def run_case(job):
             stats["unsupported"] += 1
             continue
         primary = kind == makers[0][0]
-        if tier == "thorough" and idx % 4 == 0:
-            # every file variant for every kind (a quarter of the cases; the rest rotate as in quick)
+        if tier == "thorough" and idx % 5 == 0:
+            # every file variant for every kind (a fifth of the cases; the rest rotate as in quick)
             chosen = allv
         elif primary:
             # the text of the primary kind feeds the direct parser calls: plain and .gz always
